@@ -897,6 +897,58 @@ theorem visitCK_spec (f : Bytes) (bound : Nat) (cmp : Bytes → Bytes → Orderi
 
 end Gkv.Cache
 
+/-! ### histories with range visits among the lookups and evictions -/
+
+namespace Gkv.Cache
+open Gkv Gkv.Lazy Gkv.Tree
+
+/-- an answer agrees with Model A's answer on the abstract tree -/
+def AgreesOut (cmp : Bytes → Bytes → Ordering) (T : Tree) : COut → COp2 → Prop
+  | .one o, .point op => Agrees o (absOp cmp T op) op.wv
+  | .many l, .visit asc tgt wv 0 => AgreeVisit wv l (absVisit cmp asc T tgt 0)
+  | .many l, .visit asc tgt wv (k+1) => AgreeVisit wv l ((absVisit cmp asc T tgt 0).take (k+1))
+  | _, _ => False
+
+def AgreeAll2 (cmp : Bytes → Bytes → Ordering) (T : Tree) : List COut → List COp2 → Prop
+  | [], [] => True
+  | o :: os, op :: ops => AgreesOut cmp T o op ∧ AgreeAll2 cmp T os ops
+  | _, _ => False
+
+theorem stepC2_spec (f : Bytes) (bound : Nat) (cmp : Bytes → Bytes → Ordering) (fuel : Nat)
+    (c : CTree) (T : Tree) (hc : T.Coherent f bound) (hr : Rep c T) (hf : T.height < fuel) (op : COp2) :
+    ∃ out c' rds, stepC2 f cmp fuel c op = some (out, c', rds) ∧ Rep c' T ∧ AgreesOut cmp T out op := by
+  cases op with
+  | point op =>
+    obtain ⟨res, c', rds, e, h1, h2, _⟩ := stepC_spec f bound cmp fuel c T hc hr hf op
+    exact ⟨.one res, c', rds, by simp [stepC2, e], h1, h2⟩
+  | visit asc tgt wv stop =>
+    cases stop with
+    | zero =>
+      obtain ⟨out, c', rds, e, h1, h2, _⟩ := visitC_spec f bound cmp asc wv tgt fuel c T 0 hc hr hf
+      exact ⟨.many out, c', rds, by simp [stepC2, e], h1, h2⟩
+    | succ k =>
+      obtain ⟨out, b', c', rds, e, h1, h2, _, _⟩ :=
+        visitCK_spec f bound cmp asc wv tgt fuel c T 0 (k + 1) hc hr hf (by omega)
+      exact ⟨.many out, c', rds, by simp [stepC2, e], h1, h2⟩
+
+/-- Any history of lookups, Min/Max, evictions and range visits (to the end or stopped anywhere), in
+    any order, from any cached view of a coherent tree: every call succeeds and answers as Model A
+    does on the one abstract tree; the view at the end is a view of that tree -/
+theorem runC2_spec (f : Bytes) (bound : Nat) (cmp : Bytes → Bytes → Ordering) (fuel : Nat) (T : Tree)
+    (hc : T.Coherent f bound) (hf : T.height < fuel) :
+    ∀ (ops : List COp2) (c : CTree), Rep c T →
+    ∃ outs c' rds, runC2 f cmp fuel ops c = some (outs, c', rds) ∧ Rep c' T ∧ AgreeAll2 cmp T outs ops := by
+  intro ops
+  induction ops with
+  | nil => intro c hr; exact ⟨[], c, [], rfl, hr, trivial⟩
+  | cons op ops ih =>
+    intro c hr
+    obtain ⟨o, c1, r1, e1, hr1, hag⟩ := stepC2_spec f bound cmp fuel c T hc hr hf op
+    obtain ⟨os, c2, r2, e2, hr2, hags⟩ := ih c1 hr1
+    exact ⟨o :: os, c2, r1 ++ r2, by simp only [runC2, e1, e2, bind, Option.bind], hr2, hag, hags⟩
+
+end Gkv.Cache
+
 /-! ### the executable form of `Rep` used by the driver (`cstatein`) -/
 
 namespace Gkv.Cache
